@@ -175,6 +175,8 @@ def gen_offset(rng, notation_time, allow_nominal=True):
             [("1", "S")], [("36", "H")], [("400", "D")], [("59", "D")],
             [("86400", "S")], [("1", "D"), ("12", "H")], [("0", "D")],
             [("%d" % rng.randint(1, 800), "D")],
+            [("%d" % rng.choice([rng.randint(800, 5000),
+                                 rng.randint(140000, 160000)]), "D")],
             [("%d" % rng.randint(1, 100000), "S")],
             [("2", "D"), ("3", "H"), ("4", "M"), ("5", "S")],
             [("0,5", "H")], [("1.5", "M")], [("0,25", "S")],
